@@ -2,12 +2,12 @@
 from . import ctrl, steps, twin
 
 OWNED = ["C09."]
-REQUIRED = ["C09.display_does_not_change_acceptance", "C09.display_leaves_the_same_controller_memory", "C09.rcond_values_do_not_change_acceptance", "C09.rcond_values_do_not_change_the_step_size", "C09.rcond_values_do_not_change_the_iterate", "C09.rcond_reporting_same_linear_system", "C09.rcond_reporting_same_step", "C09.trial_steps_identical", "C09.same_solution", "C09.same_status", "C09.same_counters", "C09.same_number_of_trials", "C09.same_outcome_kind", "C09.callbacks_see_every_trial"]
+REQUIRED = ["C09.earlier_display_does_not_change_the_next_step", "C09.display_does_not_change_acceptance", "C09.display_leaves_the_same_controller_memory", "C09.rcond_values_do_not_change_acceptance", "C09.rcond_values_do_not_change_the_step_size", "C09.rcond_values_do_not_change_the_iterate", "C09.rcond_reporting_same_linear_system", "C09.rcond_reporting_same_step", "C09.trial_steps_identical", "C09.same_solution", "C09.same_status", "C09.same_counters", "C09.same_number_of_trials", "C09.same_outcome_kind", "C09.callbacks_see_every_trial"]
 META = dict(
     functions_encoded=twin.FUNCTIONS + ["(inner display) pygradflow/step/step_control.py:StepController.display_step, compute_step res_func", "pygradflow/display.py:inner_display"],
     stubs=["unobserved run A and observed run B in ONE symbolic execution (same uninterpreted problem, B's step oracle replays A's outputs); B: display_interval symbolic against a symbolic clock (every pattern of displayed rows), logging at DEBUG/INFO with a null handler, a recording ComputedStep callback, collect_path", "L2: real controllers with display=True at DEBUG level (inner per-Newton-step display)"],
     assumptions=twin.loop.LOOP_ASSUMPTIONS + ["string formatting of log records is not executed (logging swallows formatting errors by design); all argument expressions of the log calls are"],
-    bounds=dict(quick="K=2 (K=1 with a constraint), n=1, m<=1, DualNorm / ObjectiveFilter; inner display: DistanceRatio, Exact, one compute_step", thorough="K=3, all policies"),
+    bounds=dict(quick="K=2 (K=1 with a constraint), n=1, m<=1, DualNorm / ObjectiveFilter; inner display: DistanceRatio, Exact, one compute_step; Exact: one displayed (possibly failing) compute_step followed by one undisplayed", thorough="K=3, all policies"),
     outside=["the arithmetic inside the condition estimator (random vectors, 2-norms, repeated exact solves did not terminate in the solver): it is replaced by its contract (returns a float or lets a LinearSolverError through); what is proved is that requesting the estimate leaves the linear system and the step unchanged", "byte-identity in floating point (exact reals here)"],
     explanation="Self-composition: the observed run asks for exactly the same trial steps and returns the same status, solution and counters on every path and every display pattern; no exception arises in the observed run (crash obligation), incl. the DEBUG-level inner display of the real controllers.",
 )
@@ -36,6 +36,10 @@ def tasks(tier):
     for c, nt, f in (("Exact", "Simplified", False), ("DistanceRatio", "Simplified", True), ("ResiduumRatio", "Full", False), ("Fixed", "Simplified", True), ("Exact", "ActiveSet", True)):
         for dbg in (True, False):
             t.append(dict(module="ctrl", fn="h_display_effect", shape=dict(controller=c, newton=nt, vars=["boxed"], cons=[], faults=False, solver_faults=f, debug=dbg), opts=dict(mulmode="uf", timeout_ms=10000)))
+    # a displayed (possibly failing) step computation followed by an undisplayed one
+    t.append(dict(module="ctrl", fn="h_display_effect", shape=dict(controller="Exact", newton="Simplified", vars=["boxed"], cons=[], faults=False, solver_faults=True, debug=True, then_quiet=True), opts=dict(mulmode="uf", timeout_ms=10000)))
+    if not q:
+        t.append(dict(module="ctrl", fn="h_display_effect", shape=dict(controller="DistanceRatio", newton="Simplified", vars=["boxed"], cons=[], faults=False, solver_faults=True, debug=True, then_quiet=True), opts=dict(mulmode="uf", timeout_ms=10000)))
     for sv in steps.SOLVERS:
         t.append(dict(module="steps", fn="h_rcond", shape=dict(vars=["boxed"], cons=["eq0"], solver=sv), opts=dict(nra=True, timeout_ms=60000)))
     return t
